@@ -184,7 +184,39 @@ W_MARK_SET = W('markedPosition.setter', 'markedPosition', dict(value=PInt()), pr
                ghost={'DEFAULT_BUFFER_SIZE': PConst(K)},
                external=['absolute-position-kept', 'tell-stable', 'unread-kept'])
 
-CONTRACTS = [READ_COMPLETE, READ_PARTIAL, IS_EOS_BYTESIO, IS_EOS_GENERIC, PEEK_NOPEEK,
+
+
+def _peek_method(ex, self, n):
+    """model of a stream's peek(n) (CachingStreamWrapper.peek contract: data at the position, position unchanged),
+    over a non-blocking source: may return None or fewer octets than asked"""
+    import z3 as _z
+    from pyvc.core import SeqV, BoolSort, toint
+    if ex.choose(ex.fresh('peek.none', BoolSort()), 'peek-none'):
+        return None
+    data = self.fields['data'].z
+    pos = self.fields['pos']
+    n = toint(n)
+    rest = _z.Length(data) - pos
+    k = ex.fresh('peek.k', _z.IntSort())
+    ex.assume(_z.And(k >= 0, k <= rest, _z.Or(n < 0, k <= n)))
+    return SeqV(_z.Extract(data, pos, k), 'bytes')
+
+
+PEEK_WITHPEEK = Contract(
+    id='codec.streaming::peekIntoStream[peek]', file=F, qual='peekIntoStream', properties=['C05', 'C11', 'C12'],
+    params=dict(substrate=PStream('partial', bases=('IOBase',), extra_methods={'peek': _peek_method}), size=PInt()),
+    requires=['size >= 0'],
+    yield_ensures=[('position-unchanged', 'substrate.pos == old(substrate.pos)'),
+                   ('data', 'not isinstance(y, SubstrateUnderrunError) ==> (len(y) == size and y == X.sub(substrate.data, '
+                            'old(substrate.pos), old(substrate.pos) + size))'),
+                   ('marker-or-data', 'isinstance(y, SubstrateUnderrunError) or isinstance(y, bytes)')],
+    exit_ensures=[('ends-with-data', 'isinstance(last_yield(), bytes)'),
+                  ('position-restored', 'substrate.pos == old(substrate.pos)')],
+    loops={0: Loop(invariant=['substrate.pos == old(substrate.pos)'], yields_each_iteration=True)},
+    external=['position-unchanged', 'data', 'marker-or-data', 'ends-with-data', 'position-restored'],
+)
+
+CONTRACTS = [READ_COMPLETE, READ_PARTIAL, IS_EOS_BYTESIO, IS_EOS_GENERIC, PEEK_NOPEEK, PEEK_WITHPEEK,
              W_READ, W_PEEK, W_TELL, W_SEEK, W_SEEK_CUR, W_MARK_SET]
 
 
